@@ -106,6 +106,18 @@ Wall time on this machine (16 cores): every quick tier finishes in under 3 minut
   candidate assignments are tried and checked by the solver; again only to obtain a witness of a violation.
 * Scheduling (C07) instances come both from hand-built symbolic shapes and from the real generators with sampler stubs.
 * Seeded changes are tested in a scratch worktree (`VERIF_REPO`, `VERIF_OUT`), never by patching `/repo`.
+* **Budgets**: every job has a wall-clock budget (`VERIF_JOB_BUDGET_S`, 900 s quick / 5400 s thorough), every solver query a
+  timeout, every real-torch request and batch a timeout. Exceeding any of them makes the job *inconclusive* (exit 2), never
+  a pass and never a hang; on the unchanged tree no job comes near them.
+* **Third seeding round** (12 more changes) led to: C10 also runs the filters through `DecodingStrategy.step` (the settings
+  must reach `process_logits` unchanged); C07 FFSP with two rows that finish at different steps, and FJSP/JSSP environments
+  built for another machine count than the instance they are reset with; C18 MTVRP generator with speed 0.75 and 2; C08
+  MDPP reset mask replay; C17 also requires the baseline snapshot to be frozen (structural, not identity, comparison); a
+  `torch.lerp` stand-in; and a *dyadic-collinear* candidate model for C18 counterexamples (all [0,1) draws in
+  {0, 1/4, 1/2, 3/4, 7/8}): the solver's first model of a generator violation tends to sit in a degenerate corner (points
+  1e-10 apart) where float32 and the reals model disagree and the replay does not reproduce; the dyadic model has margin.
+* A Python truth test on a non-literal solver term (`if z3_expr:`) raises in the engine. Before that guard a comparison
+  on raw solver integers silently took one branch, which is how seed C17_1 was first missed.
 
 ### 8.4 False alarms found in my own machinery and what was done
 
@@ -155,7 +167,13 @@ check was strengthened (never special-cased to the seed) and the table says so.
 
 """ + tab("seeds") + """
 
+Known blind spot: **C13_3** (a `torch.int16` index in the best-of-group selection, wrong only from batch size 8192 on) is
+not detected. The stand-in models integer tensors as mathematical integers (no wrap-around) and the bound is B <= 3; a
+bit-vector model of narrow integer dtypes would be needed. It is kept in `seeded/` marked `not_detected`.
+
 ### 8.7 What is not covered (summary; details per check in 8.2 and MANIFEST)
+
+* Wrap-around of narrow integer dtypes (int16/int32 index tensors): integers are mathematical in the stand-in.
 
 * Sizes above the stated bounds; float32 rounding (reals everywhere except the FP-mode jobs of C05 and C19; concrete
   differential runs only sample it).
